@@ -1012,6 +1012,7 @@ func (r *Runner) builtin(ctx context.Context, pos syntax.Pos, name string, args 
 		}
 
 		var vr expand.Variable
+		vr.Set = true
 		vr.Kind = expand.Indexed
 		if r.stdin != nil {
 			// Like in readLine, make a blocked read fail once the context is done.
